@@ -9,3 +9,4 @@ INVARIANTS
   DropIsSilent
   NoNoticeAboutNotice
   NoticeOnlyOnReject
+  RulesBeforeHopCount
